@@ -75,6 +75,8 @@ type Prop struct {
 	IsoEnv func(c any) []string
 	// DefaultChecks is the rapid case count when the driver gives none.
 	DefaultChecks int
+	// Enum, when set, enumerates a finite case space completely: it returns the size and the i-th case.
+	Enum func() (int, func(i int) any)
 }
 
 var registry = map[string]*Prop{}
@@ -404,5 +406,57 @@ func within(d time.Duration, f func()) (time.Duration, bool) {
 		return time.Since(start), true
 	case <-time.After(d):
 		return time.Since(start), false
+	}
+}
+
+// RunEnum executes every case of p's finite space that belongs to this shard
+// (i mod VERIF_NSHARDS == VERIF_SHARD). Violations do not stop the enumeration.
+func RunEnum(t *testing.T, p *Prop) {
+	shard, nshards := envInt("VERIF_SHARD", 0), envInt("VERIF_NSHARDS", 1)
+	st := &Stats{
+		Property: p.ID, Test: p.Name + "Enum", Shard: shard,
+		Labels: map[string]int{}, Excluded: map[string]int{},
+		keyset: map[string]struct{}{}, start: time.Now(),
+		Rule: p.Rule, Assumptions: p.Assumptions, Extra: map[string]any{},
+	}
+	if d := outDir(); d != "" {
+		st.outPath = filepath.Join(d, fmt.Sprintf("%sEnum.%d.stats.json", p.Name, shard))
+	}
+	defer st.write()
+	exec := p.executor()
+	defer exec.close()
+	n, at := p.Enum()
+	curPath := ""
+	if d := outDir(); d != "" {
+		curPath = filepath.Join(d, fmt.Sprintf("%sEnum.%d.current.json", p.Name, shard))
+	}
+	done := 0
+	for i := shard; i < n; i += nshards {
+		c := at(i)
+		if curPath != "" {
+			os.WriteFile(curPath, mustJSON(c), 0o644)
+		}
+		out := exec.run(c)
+		st.record(c, out)
+		done++
+		if out.Violation != "" && len(st.Violations) < 5 {
+			st.Violations = append(st.Violations, ViolationRec{Message: out.Violation, Case: mustJSON(c)})
+		}
+		st.mu.Lock()
+		stop := len(st.Slow) >= 3
+		st.mu.Unlock()
+		if stop {
+			break
+		}
+	}
+	if curPath != "" {
+		os.Remove(curPath)
+	}
+	st.Extra["space"] = n
+	st.Extra["enumerated_in_this_shard"] = done
+	st.Extra["exhaustive"] = done == (n-shard+nshards-1)/nshards
+	st.Completed = true
+	if len(st.Violations) > 0 {
+		t.Errorf("VIOLATION property=%s: %s", p.ID, st.Violations[0].Message)
 	}
 }
